@@ -7,29 +7,47 @@ import vlib
 FAM = "PitCs"
 
 
-def translate(R):
-    """Regenerate coq/PitCs/GenConsts.v (reaper period, default lifetime, DNL batch) from the current tree (write-if-changed)."""
-    out = os.path.join(vlib.COQ, FAM, "GenConsts.v")
-    rc, o = vlib.sh([sys.executable, os.path.join(vlib.VERIF, "translators", "pitcs", "consts.py"), vlib.REPO, out], timeout=60)
-    R.coverage.setdefault("translated", {})["coq/PitCs/GenConsts.v"] = o.strip()[:300]
-    if rc != 0:
-        R.proof_problems.append("translation of the PIT/DNL constants from fw/table failed: " + o.strip()[:300])
-        return False
-    return True
-
-
-def build(R):
-    ok, exe, log = vlib.extract_build(FAM)
-    if not ok:
-        R.proof_problems.append("extraction/OCaml build of the PitCs model failed")
-        R.log(log[-2000:])
-        return None, None
+def build_harness(R):
     h = os.path.join(R.work, "h.test")
     ok, log = vlib.go_test_build("pitcs", h)
     if not ok:
         R.proof_problems.append("Go harness pitcs no longer builds against the tree: " + log[-600:])
         R.log(log[-2000:])
-        return None, None
+        return None
+    return h
+
+
+def translate(R, h):
+    """Measure the model's constants on the running code (TestProbeConsts, virtual time) and regenerate coq/PitCs/GenConsts.v
+    (write-if-changed).  Items that cannot be measured keep the committed reference value: a note, not an alarm."""
+    out = os.path.join(vlib.COQ, FAM, "GenConsts.v")
+    probe = os.path.join(R.work, "probe-consts.txt")
+    if os.path.exists(probe):
+        os.remove(probe)
+    if h is not None:
+        env = vlib.goenv(); env.update(VERIF_OUT=probe)
+        rc, o = vlib.sh([h, "-test.run", "TestProbeConsts", "-test.count=1", "-test.timeout=2m"], env=env, timeout=300, cwd=R.work)
+        if rc != 0:
+            R.notes.append("translator: the constants probe aborted (%s); reference values kept; the correspondence run decides" % o.strip()[-200:])
+    rc, o = vlib.sh([sys.executable, os.path.join(vlib.VERIF, "translators", "pitcs", "consts.py"), probe, out], timeout=60)
+    R.coverage.setdefault("translated", {})["coq/PitCs/GenConsts.v"] = o.strip()[:400]
+    inc = [l.split(" ", 2)[1:] for l in o.split("\n") if l.startswith("INCOMPLETE ")]
+    if inc:
+        R.coverage.setdefault("translation_incomplete", []).extend(["PitCs:" + x[0] for x in inc])
+        for x in inc:
+            R.notes.append("translator: %s not measurable on this tree (%s); reference value kept; the correspondence run decides" % (x[0], x[1] if len(x) > 1 else ""))
+    if rc != 0:
+        R.proof_problems.append("no value for a PitCs constant: " + o.strip()[:300])
+        return False
+    return True
+
+
+def build_runner(R):
+    ok, exe, log = vlib.extract_build(FAM)
+    if not ok:
+        R.proof_problems.append("extraction/OCaml build of the PitCs model failed")
+        R.log(log[-2000:])
+        return None
     # private copy of the runner: another check of the family may rebuild work/PitCs/ml concurrently
     exe2 = os.path.join(R.work, "runner")
     for attempt in range(3):
@@ -37,11 +55,21 @@ def build(R):
             shutil.copy(exe, exe2)
             break
         except OSError:
-            ok, exe, log = vlib.extract_build(FAM)    # another check of the family rebuilt work/PitCs/ml meanwhile
+            ok, exe, log = vlib.extract_build(FAM)
             if not ok:
                 R.proof_problems.append("extraction/OCaml build of the PitCs model failed")
-                return None, None
-    return h, exe2
+                return None
+    return exe2
+
+
+def build(R):
+    h = build_harness(R)
+    if h is None:
+        return None, None
+    exe = build_runner(R)
+    if exe is None:
+        return None, None
+    return h, exe
 
 
 def run_harness(R, h, n, seed, mode, tag, ops_file=None, corpus=None):
@@ -139,14 +167,17 @@ def run_family(R, pid, modes, n_quick, n_thorough):
         "time is the virtual clock of testing/synctest (go1.26); the forwarding thread's select loop is emulated by the harness, serving the PIT update signal and the DNL ticker at the instant they become ready",
         "extraction: ExtrOcamlBasic only; N, Z, positive, nat stay Coq datatypes",
     ]
-    R.coverage["trusted_base"] = ["Coq kernel 8.16.1", "translators/pitcs/consts.py (regex over three Go files; a miss is reported, a wrong value shows as a divergence)", "Coq extraction + OCaml 4.13.1", "runner/PitCs/driver.ml", "harness/pitcs generator and event loop",
+    R.coverage["trusted_base"] = ["Coq kernel 8.16.1", "harness/pitcs TestProbeConsts + translators/pitcs/consts.py (constants measured on the running code)", "Coq extraction + OCaml 4.13.1", "runner/PitCs/driver.ml", "harness/pitcs generator and event loop",
                                   "go1.26 toolchain incl. testing/synctest", "verif hooks fw/table/zz_verif_pitcs.go, fw/fw/zz_verif_pitcs.go"]
-    translate(R)
+    h = build_harness(R)
+    translate(R, h)
     R.prove(FAM)
     if not R.quick:
         R.coqchk(FAM, ["PitCs.Props_" + pid] if os.path.exists(os.path.join(vlib.COQ, FAM, "Props_%s.vo" % pid)) else ["PitCs.Model"])
-    h, exe = build(R)
     if h is None:
+        return None
+    exe = build_runner(R)
+    if exe is None:
         return None
     corpus_dir = os.path.join(R.work, "corpus")
     shutil.rmtree(corpus_dir, ignore_errors=True)
